@@ -54,6 +54,11 @@ def judge(ev, obs, gens_before):
     want = ev['expect'][0]
     root = want['id']
     got = [v for v in obs['values'] if v['tag'] == 'app' and v['id'] == root]
+    if ev['op'].endswith('-race'):
+        if len(got) != 1 or got[0] not in ev['expect']:
+            return (f'{ev["op"]}: while generation {ev["resolved"] + 1} was committed during the load, the actors received a mixture '
+                    f'of generations (observed {json.dumps(got)[:400]})')
+        return None
     if got != [want]:
         return (f'{ev["op"]} of generation {ev["g"] or "latest"}: an actor did not receive its own state of generation '
                 f'{ev["resolved"]} (observed {json.dumps(got)[:400]} expected {json.dumps(want)[:400]})')
@@ -88,7 +93,7 @@ def run_history(args):
             problem = judge(ev, obs, gens)
             if problem:
                 return k, problem
-            if ev['op'] == 'train':
+            if ev['op'] == 'train' or ev['op'].endswith('-race'):
                 gens += 1
         return None, None
     finally:
@@ -103,7 +108,7 @@ def main(chk):
     maxgen, depth = (2, 4) if chk.quick else (3, 5)
     histories = []
     for pipe in range(1, NPIPES + 1):
-        res = chk.tlc('Lifecycle', cfg(pipe, maxgen, depth, os.path.join(tmp, f'lc{pipe}.cfg')), require=['Train', 'Load'], workers=4)
+        res = chk.tlc('Lifecycle', cfg(pipe, maxgen, depth, os.path.join(tmp, f'lc{pipe}.cfg')), require=['Train', 'Load', 'Race'], workers=4)
         recs = res.json_prints()
         if not recs:
             raise tlc.MachineryError(f'Lifecycle.tla pipeline {pipe}: nothing exported')
